@@ -105,7 +105,7 @@ def op_set(seval, args):
             defined_at = seval.environment
             steps = key.steps
             while steps > 0:
-                defined_at = seval.environment.parent
+                defined_at = defined_at.parent
                 steps -= 1
 
             # get the dict out of the environment
